@@ -2,7 +2,7 @@
 
    The FULL statement "for every declared 2xx response x content type the handler's decode path delivers a value of
    the annotated type re-encoding to the body / None / the text / the bytes / the stream items" — on the decision
-   model:  forall d, C05_holds d = true  — is FALSE: seven classes of counterexample, C05_refuted_F05b..i.
+   model:  forall d, C05_holds d = true  — is FALSE: five classes of counterexample, C05_refuted_F05b,c,f,h,i (F05e and F05g are fixed: C05_fixed_F05e/g).
    PARTIAL (what is proved, for every registry and every operation shape, no bound on sizes):
      C05_partial                  primary response, single non-stream JSON content: delivers, given the heuristic agrees
      C05_partial_class            the same with the heuristic hypotheses DISCHARGED for every generated class name
@@ -105,42 +105,41 @@ Theorem C05_refuted_F05c_all : forall reg o p n r m ct imported,
   delivers imported (handle reg o m ct) WText = false /\ delivers imported (handle reg o m ct) WBytes = false.
 Proof. exact secondary_never_text_or_bytes. Qed.
 Print Assumptions C05_refuted_F05c_all.
-(* F05g: a status with no numeric key (wildcard-declared) falls to `case _`, which raises *)
-Theorem C05_refuted_F05g_all : forall reg o st ct,
-  (forall p n, cprocessed o = Some (p, n) -> n <> st) ->
-  find_status st (cothers o) = None -> fallback (map to_resp o) = ARaiseFallback ->
-  handle reg o st ct = PRaiseHTTP.
-Proof. exact handle_undeclared. Qed.
-Print Assumptions C05_refuted_F05g_all.
+(* F05g FIXED: a "2XX" range that is the primary response handles every otherwise undeclared 2xx status *)
+Theorem C05_wildcard_primary : forall reg o w st ct,
+  cprocessed o = None -> find_status st (cothers o) = None ->
+  wildcard_resp o = Some w -> is_strategy_resp o w = true -> 200 <= st < 300 ->
+  handle reg o st ct = if is_none_ret (resolve o) then PNone else strategy_path reg (resolve o) ct.
+Proof. exact handle_wildcard_primary. Qed.
+Print Assumptions C05_wildcard_primary.
 
-Theorem C05_refuted_F05b : guard_bits d_F05b = [false; true; true; true; true; true; true]
+Theorem C05_refuted_F05b : guard_bits d_F05b = [false; true; true; true; true]
   /\ the_path d_F05b = PCast /\ the_want d_F05b = WJsonTyped (TLib [100;97;116;101;116;105;109;101]) /\ C05_holds d_F05b = false.
 Proof. exact refuted_F05b. Qed.
 Print Assumptions C05_refuted_F05b.
-Theorem C05_refuted_F05c : guard_bits d_F05c = [true; false; true; true; true; true; true]
+Theorem C05_refuted_F05c : guard_bits d_F05c = [true; false; true; true; true]
   /\ the_path d_F05c = PCast /\ the_want d_F05c = WText /\ C05_holds d_F05c = false.
 Proof. exact refuted_F05c. Qed.
 Print Assumptions C05_refuted_F05c.
-Theorem C05_refuted_F05e : guard_bits d_F05e = [true; true; false; true; true; true; true]
-  /\ the_imported d_F05e = false /\ (exists c, the_path d_F05e = PStructure c) /\ C05_holds d_F05e = false.
-Proof. exact refuted_F05e. Qed.
-Print Assumptions C05_refuted_F05e.
-Theorem C05_refuted_F05f : guard_bits d_F05f = [true; true; true; false; true; true; true]
+Theorem C05_refuted_F05f : guard_bits d_F05f = [true; true; false; true; true]
   /\ the_path d_F05f = PStreamSse /\ the_want d_F05f = WStreamItems /\ C05_holds d_F05f = false.
 Proof. exact refuted_F05f. Qed.
 Print Assumptions C05_refuted_F05f.
-Theorem C05_refuted_F05g : guard_bits d_F05g = [true; true; true; true; false; true; true]
-  /\ the_path d_F05g = PRaiseHTTP /\ C05_holds d_F05g = false.
-Proof. exact refuted_F05g. Qed.
-Print Assumptions C05_refuted_F05g.
-Theorem C05_refuted_F05h : guard_bits d_F05h = [true; true; true; true; true; false; true]
+Theorem C05_refuted_F05h : guard_bits d_F05h = [true; true; true; false; true]
   /\ module_syntax_ok (d_module d_F05h) = false /\ C05_holds d_F05h = false.
 Proof. exact refuted_F05h. Qed.
 Print Assumptions C05_refuted_F05h.
-Theorem C05_refuted_F05i : guard_bits d_F05i = [true; true; true; true; true; true; false]
+Theorem C05_refuted_F05i : guard_bits d_F05i = [true; true; true; true; false]
   /\ the_annotation d_F05i = [73;116;101;109] /\ the_want d_F05i = WJsonTyped (TClass [67;97;116]) /\ C05_holds d_F05i = false.
 Proof. exact refuted_F05i. Qed.
 Print Assumptions C05_refuted_F05i.
+(* regression: witnesses of the fixed findings *)
+Theorem C05_fixed_F05e : c05_guard d_F05e = true /\ the_imported d_F05e = true /\ C05_holds d_F05e = true.
+Proof. exact fixed_F05e. Qed.
+Print Assumptions C05_fixed_F05e.
+Theorem C05_fixed_F05g : c05_guard d_F05g = true /\ (exists c, the_path d_F05g = PStructure c) /\ C05_holds d_F05g = true.
+Proof. exact fixed_F05g. Qed.
+Print Assumptions C05_fixed_F05g.
 Theorem C05_guard_nonvacuous :
   c05_guard d_ok = true /\ C05_holds d_ok = true /\ c05_guard d_ok2 = true /\ C05_holds d_ok2 = true
   /\ c05_guard d_ok3 = true /\ the_path d_ok3 = PNone
